@@ -399,6 +399,30 @@ def run(ctx, ck) -> None:
             )
             ck.expect('K6', calls_super, r.node, 'subclass constructor chains to InverseOperator.__init__', 'subclass of InverseOperator bypasses the capturing constructor')
 
+    # K6b: a lazy inverse is never re-created from an existing one (the copy would capture the configuration active
+    # at copy time): no method that runs with self: InverseOperator builds a new instance of its own class
+    nscan = 0
+    for k in inv.mro:
+        for mname, node in k.own.items():
+            if not isinstance(node, ast.FunctionDef) or mname == '__init__' or not node.args.args:
+                continue
+            nscan += 1
+            sname = node.args.args[0].arg
+            for n in ast.walk(node):
+                if not isinstance(n, ast.Call):
+                    continue
+                f = n.func
+                rebuilt = (
+                    (isinstance(f, ast.Call) and isinstance(f.func, ast.Name) and f.func.id == 'type' and len(f.args) == 1 and isinstance(f.args[0], ast.Name) and f.args[0].id == sname)
+                    or (isinstance(f, ast.Attribute) and f.attr == '__class__' and isinstance(f.value, ast.Name) and f.value.id == sname)
+                )
+                if rebuilt:
+                    carried = any(isinstance(x, ast.Attribute) and x.attr == 'config' for x in ast.walk(node))
+                    ck.expect('K6', carried, n, 'the copy carries the captured configuration over',
+                              f'{k.name}.{mname} rebuilds an operator of the class of self ({ast.unparse(n)[:40]}): when self is a lazy solver inverse its constructor runs again and captures the '
+                              'configuration active *now* (e.g. at reduce() time), not the one active when the inverse was created', instance=f'{k.name}.{mname} re-creation')
+    ck.floor('K6', nscan, 20, 'methods that can run with self: InverseOperator')
+
     # ---------------------------------------------------------------- K7 use
     mv = table.resolve(inv, 'mv')
     if mv is None or not isinstance(mv.node, ast.FunctionDef):
